@@ -85,7 +85,48 @@ def mk_dt(spec):
         return D.ArrayOf(mk_dt(spec['child']), props.get('minlen', 0), props.get('maxlen'))
     if t == 'struct':
         return D.StructOf(**{k: mk_dt(v) for k, v in spec['members'].items()})
+    if t == 'tuple':
+        return D.TupleOf(*[mk_dt(c) for c in spec['children']])
+    if t == 'limits':       # ONE member object, used twice (datatypes.py: LimitsType)
+        return D.LimitsType(mk_dt(spec['child']))
+    if t == 'text':
+        return D.TextType(props.get('maxchars'))
     raise ValueError(t)
+
+
+def dt_children(dt):
+    """the member datatype objects of a datatype object, in the order the paths of a program count them"""
+    from frappy import datatypes as D
+    if isinstance(dt, D.ArrayOf):
+        return [dt.members]
+    if isinstance(dt, D.TupleOf):
+        return list(dt.members)
+    if isinstance(dt, D.StructOf):
+        return [dt.members[k] for k in sorted(dt.members)]
+    return []
+
+
+def dt_at(dt, path):
+    for i in path:
+        dt = dt_children(dt)[i]
+    return dt
+
+
+def dt_paths(dt, path=()):
+    """all (path, datatype object) below and including dt"""
+    out = [(list(path), dt)]
+    for i, c in enumerate(dt_children(dt)):
+        out += dt_paths(c, path + (i,))
+    return out
+
+
+def dt_kind(dt):
+    from frappy import datatypes as D
+    for k, c in (('float', D.FloatRange), ('int', D.IntRange), ('text', D.TextType), ('string', D.StringType), ('bool', D.BoolType),
+                 ('enum', D.EnumType), ('array', D.ArrayOf), ('limits', D.LimitsType), ('tuple', D.TupleOf), ('struct', D.StructOf)):
+        if isinstance(dt, c):
+            return k
+    return None
 
 
 def mk_func(sig):
@@ -161,6 +202,21 @@ def dt_tree(dt):
         return canon_dinfo(dt.export_datatype())
     except Exception:
         return ['value', [], [], None]
+
+
+def obj_tree(dt):
+    """the tree of a datatype OBJECT as the model takes it: like dt_tree, but a LimitsType is a node of kind 'limits'
+    with its one (doubly used) member"""
+    from frappy import datatypes as D
+    if dt is None:
+        return None
+    node = dt_tree(dt)
+    kids = dt_children(dt)
+    if isinstance(dt, D.LimitsType):
+        return ['limits', node[1], [obj_tree(kids[0])], None]
+    if kids:
+        node[2] = [obj_tree(k) for k in kids]
+    return node
 
 
 def catalogue(dt):
@@ -358,7 +414,10 @@ def run_op(op, classes, insts):
             return 'ok', 'inst:' + op['name'], extra
         if kind == 'mutate':
             obj = insts[op['inst']]
-            if op['kind'] == 'setprop':
+            if op['kind'] == 'setprop' and op.get('path'):
+                # a property of a member datatype of the datatype of this instance's parameter
+                dt_at(obj.accessibles[op['par']].datatype, op['path']).setProperty(op['key'], op['val'])
+            elif op['kind'] == 'setprop':
                 obj.accessibles[op['par']].setProperty(op['key'], op['val'])
             elif op['kind'] == 'write':
                 getattr(obj, 'write_' + op['par'])(op['val'])
@@ -368,7 +427,7 @@ def run_op(op, classes, insts):
                 HasControlledBy.register_input.__get__(_Proxy(obj, op['par']))(op['member'], None)
             return 'ok', 'inst:' + op['inst'], extra
         raise ValueError(kind)
-    except KeyError as e:
+    except (KeyError, IndexError) as e:
         if kind != 'class' and (op.get('cls') not in classes if kind == 'inst' else op.get('inst') not in insts):
             return 'skipped', None, extra        # refers to a class/instance whose creation failed
         return 'error:' + type(e).__name__, _target_of(op), extra
@@ -466,8 +525,15 @@ ROOT_KINDS = {
 }
 
 
+def gen_member(rng, depth):
+    """a member datatype of a tuple / struct: mostly a leaf, sometimes a container again"""
+    if depth < 2 and rng.random() < 0.15:
+        return gen_dt(rng, rng.choice(['array', 'tuple', 'limits']), depth)
+    return gen_dt(rng, rng.choice(['float', 'float', 'int', 'string', 'enum', 'bool']), depth)
+
+
 def gen_dt(rng, kind=None, depth=0):
-    kind = kind or rng.choice(['float', 'float', 'int', 'int', 'string', 'bool', 'enum', 'array'])
+    kind = kind or rng.choice(['float', 'float', 'int', 'int', 'string', 'bool', 'enum', 'array', 'tuple', 'struct', 'limits', 'text'])
     if kind == 'float':
         props = {}
         lo = rng.choice([None, 0, -5, 1, 2])
@@ -478,7 +544,17 @@ def gen_dt(rng, kind=None, depth=0):
             props['max'] = hi
         if rng.random() < 0.4:
             props['unit'] = rng.choice(UNITS)
+        elif depth and rng.random() < 0.4:      # inside a container: a unit following the main unit of the module
+            props['unit'] = rng.choice(['$', '$/s'])
         return {'t': 'float', 'props': props}
+    if kind == 'tuple':
+        return {'t': 'tuple', 'props': {}, 'children': [gen_member(rng, depth + 1) for _ in range(rng.choice([2, 2, 3]))]}
+    if kind == 'struct':
+        return {'t': 'struct', 'props': {}, 'members': {n: gen_member(rng, depth + 1) for n in rng.choice([['a', 'b'], ['a', 'b', 'c']])}}
+    if kind == 'limits':
+        return {'t': 'limits', 'props': {}, 'child': gen_dt(rng, rng.choice(['float', 'float', 'int']), depth + 1)}
+    if kind == 'text':
+        return {'t': 'text', 'props': {'maxchars': rng.choice([5, 10, 40])} if rng.random() < 0.5 else {}}
     if kind == 'int':
         props = {}
         lo = rng.choice([None, 0, -5, 1, 2])
@@ -520,7 +596,7 @@ def gen_dtprops(rng, kind):
         if kind == 'float' and rng.random() < 0.3:
             out['unit'] = rng.choice(UNITS)
         return out
-    if kind == 'string':
+    if kind in ('string', 'text'):
         return {'maxchars': rng.choice([2, 4, 12])} if rng.random() < 0.7 else {}
     if kind == 'array':
         return rng.choice([{'maxlen': rng.choice([4, 6])}, {'max': rng.choice([4, 6])}, {}])
@@ -556,6 +632,10 @@ def gen_bare(rng, kind):
         return rng.choice([0, 1, 2, 'a', 'self'])
     if kind == 'array':
         return rng.choice([[], [1], [1, 2, 3]])
+    if kind in ('tuple', 'limits'):
+        return rng.choice([[1, 2], [0, 5], [3, 3]])
+    if kind == 'struct':
+        return rng.choice([{'a': 1, 'b': 2}, {'a': 0, 'b': 0, 'c': 1}])
     return rng.choice([0, 'x'])
 
 
@@ -742,6 +822,9 @@ def gen_program(rng, big):
                     c = {rng.choice(['value', 'default']): gen_bare(rng, est[aname])}
                 if c:
                     cfg[aname] = c
+            if est.get('value') == 'float' and rng.random() < 0.3:
+                # the main unit of this module: every '$' in the units of its parameters (members included) follows it
+                cfg['value'] = dict(cfg.get('value') or {}, unit=rng.choice(['K', 'mm', 'V']))
             if rng.random() < 0.04:
                 cfg['nosuch'] = {'value': 1}
             if rng.random() < 0.15:
@@ -756,8 +839,19 @@ def gen_program(rng, big):
             if not est:
                 continue
             par = rng.choice(sorted(est))
-            if rng.random() < 0.35:
-                op = {'op': 'mutate', 'inst': iname, 'par': par, 'kind': 'write', 'val': rng.choice([1, 3, 5, 8, 20, 60, 'a'])}
+            try:       # the member datatype objects of this parameter of this instance, as they are now
+                members = dt_paths(ex.insts[iname].accessibles[par].datatype)[1:]
+            except Exception:
+                members = []
+            if members and rng.random() < 0.6:
+                path, member = rng.choice(members)
+                props = gen_dtprops(rng, dt_kind(member)) or \
+                    {'float': {'min': 1}, 'int': {'max': 6}, 'string': {'maxchars': 4}, 'text': {'maxchars': 4}}.get(dt_kind(member)) or \
+                    {'nosuch': 1}
+                key = rng.choice(sorted(props))
+                op = {'op': 'mutate', 'inst': iname, 'par': par, 'kind': 'setprop', 'path': path, 'key': key, 'val': props[key]}
+            elif rng.random() < 0.35:
+                op = {'op': 'mutate', 'inst': iname, 'par': par, 'kind': 'write', 'val': rng.choice([1, 3, 5, 8, 20, 60, 'a', [1, 2]])}
             elif est[par] == 'enum' and rng.random() < 0.8:
                 op = {'op': 'mutate', 'inst': iname, 'par': par, 'kind': 'enum', 'member': rng.choice(['m1', 'm2', 'x'])}
             else:
@@ -783,7 +877,7 @@ def wire_props(d):
 
 def wire_tree(spec):
     """the tree of the datatype object mk_dt(spec) builds (read off the real object: constructor defaults included)"""
-    return None if spec is None else dt_tree(mk_dt(spec))
+    return None if spec is None else obj_tree(mk_dt(spec))
 
 
 def _argument_of(decl):
@@ -801,7 +895,7 @@ def wire_decl(decl):
     if k == 'cmd':
         # the argument as it is after decoration: `Command.__call__` sets the optional members of a struct from the signature
         return {'k': 'cmd', 'desc': None if decl.get('desc') is None else jtext(decl['desc']),
-                'arg': dt_tree(_argument_of(decl)), 'props': wire_props(decl.get('props') or {})}
+                'arg': obj_tree(_argument_of(decl)), 'props': wire_props(decl.get('props') or {})}
     if k == 'value':
         return {'k': 'value', 'v': jtext(canon(decl['v']))}
     if k == 'method':
@@ -824,7 +918,8 @@ def wire_op(op, outcome, mro):
     if op['kind'] == 'write':      # a write changes the value only: not an operation of the model
         return {'op': 'setprop', 'ok': False, 'inst': op['inst'], 'par': op['par'], 'key': 'value', 'val': jtext(canon(op['val']))}
     if op['kind'] == 'setprop':
-        return {'op': 'setprop', 'ok': ok, 'inst': op['inst'], 'par': op['par'], 'key': op['key'], 'val': jtext(canon(op['val']))}
+        return {'op': 'setprop', 'ok': ok, 'inst': op['inst'], 'par': op['par'], 'path': list(op.get('path') or []),
+                'key': op['key'], 'val': jtext(canon(op['val']))}
     return {'op': 'enum', 'ok': ok, 'inst': op['inst'], 'par': op['par'], 'member': op['member']}
 
 
@@ -850,13 +945,13 @@ def prelude_ops():
                 desc = own.pop('description', None)
                 dt = own.pop('datatype', None)
                 inherit = not set(aobj.propertyDict) <= set(aobj.ownProperties)
-                decls.append([aname, {'k': 'param', 'desc': None if desc is None else jtext(desc), 'dt': dt_tree(dt),
+                decls.append([aname, {'k': 'param', 'desc': None if desc is None else jtext(desc), 'dt': obj_tree(dt),
                                       'props': wire_props(own), 'inherit': inherit}])
             else:
                 desc = own.pop('description', None)
                 arg = own.pop('argument', None)
                 own.pop('result', None)
-                decls.append([aname, {'k': 'cmd', 'desc': None if desc is None else jtext(desc), 'arg': dt_tree(arg),
+                decls.append([aname, {'k': 'cmd', 'desc': None if desc is None else jtext(desc), 'arg': obj_tree(arg),
                                       'props': wire_props(own)}])
         mro = [known[c] for c in cls.__mro__ if c in known] if module else [name]
         _prelude.append({'op': 'class', 'ok': True, 'name': name, 'mro': mro, 'module': module, 'decls': decls})
